@@ -84,6 +84,9 @@ def gen_scenario(rng, cfg):
             k += 1
             kind = rng.choice(["plain", "plain", "plain", "space", "repeat"])
             text = gen_line(rng, k)
+            if kind == "plain" and rng.chance(12):
+                # a line that starts no command is a submitted line all the same
+                text = "# note %d %s" % (k, gen_word(rng, 3, hostile=60).replace("\\", ""))
             if cfg.get("repeat_texts") and rng.chance(50):
                 text = "D%d=same" % rng.below(3)      # the same line submitted again later (not immediately)
             if kind == "space" and rng.chance(40):
@@ -120,8 +123,10 @@ def gen_scenario(rng, cfg):
         elif r < 91:
             k += 2
             ops.append({"op": "overlap", "shell": sh, "other": sh + 1, "text": gen_line(rng, k - 1), "inner": gen_line(rng, k)})
-        elif r < 96 and cfg.get("kills", True):
+        elif r < 95 and cfg.get("kills", True):
             ops.append({"op": "kill", "shell": sh, "at": rng.choice(["prompt", "done"])})
+        elif r < 96:
+            ops.append({"op": "rmdb"})
         else:
             ops.append({"op": "clock", "jump": rng.choice([1e-6, 0.5, 3600.0, 86400.0 * 30])})
     return {"prop": "C18", "ops": ops, "dedup": bool(cfg.get("dedup")), "lines": []}
@@ -200,14 +205,25 @@ class C18Runner:
         self.clock += 1e-3
         return self.clock
 
+    TZS = ["UTC0", "JST-9", "EST5", "IST-5:30", "NPT-5:45"]
+
+    def shell_env(self, idx):
+        env = {"HISTORY_FILE": self.hfile, "HISTORY_DELETE_DUPS": "1" if self.sc.get("dedup") else "0"}
+        if self.sc.get("real_clock_tz"):
+            # no simulated clock: the shells read the real one, each in another time zone; steps are
+            # serialised, so real time is strictly increasing along the submissions
+            env["TZ"] = self.TZS[idx % len(self.TZS)]
+        else:
+            env["CICADA_VERIF_CLOCK"] = "1"
+        return env
+
     def start_shell(self):
         idx = len(self.shells)
         sim = Sim(self.sched, self.keep_log) if self.sim is not None else None
         if sim is None:
             sim = Sim(self.sched, self.keep_log)
             self.sim = sim
-        env = {"HISTORY_FILE": self.hfile, "CICADA_VERIF_CLOCK": "1",
-               "HISTORY_DELETE_DUPS": "1" if self.sc.get("dedup") else "0"}
+        env = self.shell_env(idx)
         pty = PtyShell(sim, env_extra=env, cwd=os.path.join(self.dirs, "plain"))
         sh = Shell(idx, sim, pty)
         sh.cwd = os.path.join(self.dirs, "plain")
@@ -290,8 +306,7 @@ class C18Runner:
         if sh.sim is not self.sim:
             sh.sim.close()
         sim = Sim(self.sched, False)
-        env = {"HISTORY_FILE": self.hfile, "CICADA_VERIF_CLOCK": "1",
-               "HISTORY_DELETE_DUPS": "1" if self.sc.get("dedup") else "0"}
+        env = self.shell_env(i)
         pty = PtyShell(sim, env_extra=env, cwd=os.path.join(self.dirs, "plain"))
         new = Shell(i, sim, pty)
         new.cwd = os.path.join(self.dirs, "plain")
@@ -424,6 +439,8 @@ class C18Runner:
 
     def add_row(self, text, tsb, maybe=False, cwd=None):
         self.seq += 1
+        if self.sc.get("real_clock_tz") and tsb >= 1_700_000_000.0:
+            tsb = 1_790_000_000.0 + self.seq       # typed now: later than any -t value, increasing
         row = {"text": text, "tsb": tsb, "seq": self.seq, "rowid": None,
                "dir": cwd or os.path.join(self.dirs, "plain")}
         if maybe:
@@ -437,8 +454,7 @@ class C18Runner:
         if k == "newshell":
             if len(self.shells) < 3:
                 sim = Sim(self.sched, False)
-                env = {"HISTORY_FILE": self.hfile, "CICADA_VERIF_CLOCK": "1",
-                       "HISTORY_DELETE_DUPS": "1" if self.sc.get("dedup") else "0"}
+                env = self.shell_env(len(self.shells))
                 pty = PtyShell(sim, env_extra=env, cwd=os.path.join(self.dirs, "plain"))
                 sh = Shell(len(self.shells), sim, pty)
                 sh.cwd = os.path.join(self.dirs, "plain")
@@ -448,6 +464,23 @@ class C18Runner:
                 self.to_prompt(sh, first=True)
                 self.model_dedupe()
                 self.sim.probe("second_or_third_shell_on_the_same_database")
+            return
+        if k == "rmdb":
+            # fault: the history file disappears while shells are running; what was in it is gone,
+            # but every line submitted afterwards has to be recorded again
+            if not os.path.exists(self.hfile):
+                return
+            os.unlink(self.hfile)
+            for ext in ("-journal", "-wal", "-shm"):
+                try:
+                    os.unlink(self.hfile + ext)
+                except OSError:
+                    pass
+            self.rows = []
+            self.maybe = []
+            self.used_rowids = set()
+            self.ev("history-file-removed")
+            self.sim.fault("history_file_removed")
             return
         if k == "clock":
             self.clock += op["jump"]
@@ -490,7 +523,7 @@ class C18Runner:
             self.ev("history-add", op["via"], text, ts)
             if op["via"] == "oneshot":
                 if not os.path.exists(self.hfile):
-                    return
+                    self.sim.probe("history_add_into_missing_database")
                 rc, out, err = self.run_oneshot(cmd)
                 if rc != 0 or "error" in err.lower():
                     raise Violation("recording_failed", "`%s` in a fresh process failed: rc=%s %s" % (cmd[:60], rc, err.strip()[:120]))
@@ -668,7 +701,8 @@ CONFIGS = {
     "plain": ({"max_ops": 14}, 50),
     "kills": ({"max_ops": 10, "kills": True}, 25),
     "dedup_on": ({"max_ops": 14, "dedup": True, "kills": True, "repeat_texts": True}, 12),
-    "long": ({"max_ops": 24}, 13),
+    "long": ({"max_ops": 24}, 8),
+    "real_clock_tz": ({"max_ops": 12, "real_clock_tz": True, "kills": False}, 5),
 }
 
 TIERS = {"quick": 1000, "thorough": 12000}
@@ -686,6 +720,12 @@ def make_case(seed, index):
             break
     sc = gen_scenario(rng, CONFIGS[name][0])
     sc["config"] = name
+    if CONFIGS[name][0].get("real_clock_tz"):
+        sc["real_clock_tz"] = True
+        sc["ops"] = [o for o in sc["ops"] if o["op"] not in ("clock", "overlap")]
+        for o in sc["ops"]:
+            if o["op"] == "hadd" and o.get("ts") == 1700000500.25:
+                o["ts"] = 1000.5
     sc["adversarial_picks"] = 0
     return sc, rng
 
